@@ -221,17 +221,44 @@ class Real(Type):
         super(Real, self).__init__(name, 'REAL')
 
     def encode(self, data):
-        data = float(data)
-        exponent = 0
-
-        while abs(data) >= 10:
-            data /= 10
-            exponent += 1
-
         element = ElementTree.Element(self.name)
-        element.text = '{}E{}'.format(data, exponent)
+        element.text = self.format_real(float(data))
 
         return element
+
+    def format_real(self, data):
+        # Shortest decimal string that reads back as exactly the same
+        # float; the decimal point is moved textually, so no rounding
+        # can occur.
+        text = repr(data)
+
+        if text in ['inf', '-inf', 'nan']:
+            return text.upper()
+
+        if 'e' in text:
+            mantissa, exponent = text.split('e')
+            exponent = int(exponent)
+        else:
+            mantissa = text
+            exponent = 0
+
+        sign = ''
+
+        if mantissa.startswith('-'):
+            sign = '-'
+            mantissa = mantissa[1:]
+
+        if '.' not in mantissa:
+            mantissa += '.0'
+
+        integer, fraction = mantissa.split('.')
+
+        if len(integer) > 1:
+            exponent += (len(integer) - 1)
+            fraction = (integer[1:] + fraction).rstrip('0') or '0'
+            integer = integer[0]
+
+        return '{}{}.{}E{}'.format(sign, integer, fraction, exponent)
 
     def decode(self, element):
         return float(element.text)
